@@ -1596,6 +1596,7 @@ class WassersteinDistanceNewton(VariationalWassersteinDistance):
 
         # Newton iteration - converged only if the stopping criterion is met
         converged = False
+        iter = 0
         for iter in range(num_iter):
             # It is possible that the linear solver fails. In this case, we simply
             # stop the iteration and return the current solution.
